@@ -674,6 +674,7 @@ func runC01(c *Ctx) {
 	ruleIsNilMeansNull(c, "R01.e")
 	ruleConstructors(c)
 	ruleReentrantScratch(c, "R01.g", c.P.parserScope())
+	ruleRecycledObjectsReset(c, "R01.h")
 	c.assume("bytes.Buffer and strconv behave as documented")
 }
 
